@@ -7,6 +7,7 @@ midpoint numbering (one new vertex per undirected edge, as `unique_rows(sorted e
 import TrimeshVerif.Proofs.Remesh
 import TrimeshVerif.Proofs.GeomRat
 import TrimeshVerif.Proofs.Winding
+import TrimeshVerif.Proofs.ToSize
 namespace TV.C18
 open TV.Mat3 TV.Moments TV.Affine TV.Remesh
 
@@ -123,5 +124,36 @@ example :
       (List.range 4).map (traverse w tree) = [false, false, true, false] := by decide
 
 end winding
+
+
+/-! ### subdivide_to_size -/
+
+section tosize
+open TV.ToSize
+variable {F : Type} [Field F] [LinearOrder F] [IsStrictOrderedRing F]
+
+/-- **size-bounded subdivision leaves no edge longer than the bound, and ends**: run one face through the loop of
+    `subdivide_to_size` (a face with an edge longer than the bound is replaced by its four children, at most `fuel =
+    max_iter` times; lengths compared as squares).  Every triangle of a successful result has all edges within the
+    bound; every child's longest edge is exactly half its parent's; and the loop succeeds - no "max_iter exceeded" -
+    whenever the longest edge is at most `2^max_iter` times the bound -/
+theorem C18_to_size (m2 : F) (hm : 0 ≤ m2) (fuel : Nat) (t : TV.ToSize.Tri F) :
+    (∀ ts, toSize m2 fuel t = some ts → ∀ t' ∈ ts, maxEdge2 t' ≤ m2) ∧
+    (∀ ch ∈ TV.Remesh.children t.1 t.2.1 t.2.2, maxEdge2 ch * 4 = maxEdge2 t) ∧
+    (maxEdge2 t ≤ m2 * 4 ^ fuel → ∃ ts, toSize m2 fuel t = some ts) :=
+  ⟨fun ts h t' ht' => toSize_small m2 fuel t ts h t' ht', fun ch hch => child_maxEdge2 t.1 t.2.1 t.2.2 ch hch,
+   fun h => toSize_succeeds m2 hm fuel t h⟩
+
+/-- what the driver runs on the harness's triangles is the subdivision of `C18_to_size` at ℚ -/
+theorem C18_rat_to_size (m2 : Rat) (fuel : Nat) (t : TV.GeomRat.Tri) :
+    TV.GeomRat.toSizeR m2 fuel t = toSize m2 fuel t :=
+  TV.GeomRat.toSizeR_eq m2 fuel t
+
+/-- non-vacuity: a right triangle with legs 4 and bound 2 (squared: 4) needs two rounds and yields 16 triangles -/
+example : (toSize (4 : ℚ) 2 (((0, 0, 0), (4, 0, 0), (0, 4, 0)) : TV.ToSize.Tri ℚ)).map List.length = some 16 ∧
+    toSize (4 : ℚ) 1 (((0, 0, 0), (4, 0, 0), (0, 4, 0)) : TV.ToSize.Tri ℚ) = none := by
+  constructor <;> decide +kernel
+
+end tosize
 
 end TV.C18
